@@ -68,8 +68,13 @@ class UnknownUnit(Exception):
 
 
 class _T(Transformer):
+    extra = {}
+
     def name(self, a):
         n = str(a[0])
+        if n in self.extra:
+            u = self.extra[n]
+            return (tuple(map(F, u[:5])), float(u[5]))
         if n not in U:
             raise UnknownUnit(n)
         u = U[n]
@@ -89,11 +94,13 @@ class _T(Transformer):
         return (tuple(x * F(p).limit_denominator(8) for x in a[0][0]), a[0][1] ** p)
 
 
-def dim_of(s):
-    """unit string -> (dimension vector, SI magnitude); raises UnknownUnit / LarkError"""
+def dim_of(s, extra=None):
+    """unit string -> (dimension vector, SI magnitude); raises UnknownUnit / LarkError.  extra: {name: (L,M,T,Q,Theta,magnitude)}"""
     from lark.exceptions import VisitError
     try:
-        return _T().transform(GRAMMAR.parse(s))
+        t = _T()
+        t.extra = dict(extra or {})
+        return t.transform(GRAMMAR.parse(s))
     except VisitError as e:
         if isinstance(e.orig_exc, UnknownUnit):
             raise e.orig_exc
